@@ -15,6 +15,10 @@ REVERTS = {
 }
 
 ASSESS = {
+ "C09-r5-m1": "Two edits: PriorityQueue::IterMut walks the heap vector (identical multiset while heap and map agree) and bubble_up goes back to moving while comparing (revert of the D6 repair). Only after a caught panic in a comparison does the heap vector name one slot twice, and iter_mut then yields it twice. The second edit alone breaks C10, whose fault enumeration reports it (see evals/r5-cross.txt); C09 is quantified over fault-free histories. Not reported by C09, not claimed.",
+ "C09-r5-m2": "Two edits: DoublePriorityQueue::IterMut takes its end from `len()` (the size counter) and push counts the element after the sift-up (partial revert of D6). Visible only after a caught panic in a comparison inside push; the second edit alone breaks C10, which reports it (evals/r5-cross.txt). Outside C09 as quantified (fault-free histories).",
+ "C17-r5-m1": "Two edits: shrink_to_fit truncates heap/qp to `size`, and PriorityQueue::push counts the element after the sift-up (partial revert of D6). The truncation is a no-op on every state reachable without a caught panic; the second edit alone breaks C10, which reports it (evals/r5-cross.txt). Outside C17 as quantified (reachable states of fault-free histories; its failure paths are allocation failures).",
+ "C13-r5-m2": "The serde visitor adds a second heap/qp entry for an adjacent repeated item. The queue is broken at deserialisation time, which C15 and C04 report (serde-arbitrary-input: len() = 2, map holds 1). C13 is quantified over states reachable through the API of a consistent queue and does not deserialise hostile input; the sorted-iterator symptom is a consequence of the C15 violation.",
  "C18-r4-m2": "On equal lengths `append` breaks the tie by `capacity()`. The change violates the append clash rule (reported by C07 on the pairs of explored states) and makes capacity visible (reported by C17's twin differential). Its dependence on the HASHER exists only through `capacity()` after removals (tombstones cluster differently; ~20 elements and a removal are needed), which C18's bounds do not reach: a bound limitation of C18, stated here, not a detection by C18.",
  "C05-r4-m2": "Swapped arguments of the push-versus-rebuild heuristic on the (min, None) hint branch of PriorityQueue::extend: a small batch on a large queue is rebuilt in O(n) instead of pushed. extend is not among the operations C05 bounds (it lists single-element operations and the bulk operations that re-establish order by construction, append, retain, iter_mut drop, conversions). Results stay correct. Not reported, not claimed.",
  "C14-r4-m2": "Moves `size += 1` of push behind the sift-up in both queues (partial revert of D6): only visible after a caught panic in a comparison; C10's business, outside C14 as quantified.",
@@ -59,7 +63,7 @@ for d in sorted(os.listdir(ROOT)):
         origin = f"revert of fix commit {commit} in /repo"
     else:
         prop = d.split("-")[0]
-        rnd = "fourth" if "-r4-" in d else ("third" if "-r3-" in d else ("second" if "-r2-" in d else "first"))
+        rnd = "fifth" if "-r5-" in d else "fourth" if "-r4-" in d else ("third" if "-r3-" in d else ("second" if "-r2-" in d else "first"))
         origin = f"written by a fresh sub-agent ({rnd} round) that was given only the text of {prop} and a scratch worktree"
         notes = os.path.join(p, "notes.md")
         needs = open(notes).read().strip() if os.path.exists(notes) else ""
@@ -86,7 +90,7 @@ for d in sorted(os.listdir(ROOT)):
     rows.append((d, prop, sorted(caught), sorted(machinery), sorted(ran), own_final))
 
 with open(os.path.join(ROOT, "MATRIX.md"), "w") as f:
-    f.write("# Seeded changes x quick checks\n\n`X` = the check exited 1 with a VIOLATION line and a replay that reproduced twice, in at least one of the runs recorded under `<change>/evals/`; `.` = run and silent; blank = not run against this change (the third and fourth rounds were run against their own property, C03 and C04 only). Entries are a lower bound: the all-checks pass was made with the harness as it was when the change arrived, later strengthening only adds detections. Column `own` = reported by the check of the property it was written against, with the FINAL harness.\nGenerated by tools/make_seeded_meta.py.\n\n")
+    f.write("# Seeded changes x quick checks\n\n`X` = the check exited 1 with a VIOLATION line and a replay that reproduced twice, in at least one of the runs recorded under `<change>/evals/`; `.` = run and silent; blank = not run against this change (the third, fourth and fifth rounds were run against their own property, C03 and C04 only). Entries are a lower bound: the all-checks pass was made with the harness as it was when the change arrived, later strengthening only adds detections. Column `own` = reported by the check of the property it was written against, with the FINAL harness.\nGenerated by tools/make_seeded_meta.py.\n\n")
     f.write("| change | for | " + " | ".join(p[1:] for p in PROPS) + " | own |\n")
     f.write("|---|---|" + "---|" * len(PROPS) + "---|\n")
     own = 0
